@@ -64,7 +64,7 @@ class C11(Prop):
     coq_targets = ["props/C11.vo"]
     props_file = "props/C11.v"
     design_ref = "DESIGN.md §4 C11, §3.2 (Rowan), §8"
-    level_text = ("Coq theorems (model = the editing API over a store of trees with re-based handles; variant `fixed` = /repo with the eight C11 fixes): "
+    level_text = ("Coq theorems (model = the editing API over a store of trees with re-based handles; variant `fixed` = /repo with the eight C11 fixes and proposed_fixes/C11-10, in-place splices): "
                   "(1) for ANY well-formed field in the sense of C10 (RelGrammar.wf_rfield: arbitrary white space in every slot, newlines, empty entries, trailing comma, substitution variables) "
                   "and the empty field, for EVERY in-range history of the twelve operations push, insert, replace, remove_entry, Entry::push, Entry::replace, remove_relation, set_version, "
                   "drop_constraint, set_archqual, set_architectures, add_profile (operands built by Entry::from(vec![Relation::new(..)]) / Relation::new, identifier texts), issued through "
@@ -77,9 +77,14 @@ class C11(Prop):
                   "insert/push add the entry and separator tokens only; the entries after an insert are the list insert; an update below a path leaves the text outside that node alone; "
                   "the store-level effect of Entry::remove through a handle at any path of any tree; the machine computes the pure tree functions of RelEditTree.v on any tree (C11_any_machine_step); "
                   "(3) for each of the 8 defects of the code before the fixes a _refuted theorem (failing history on `shipped` and on the variant lacking only that fix, outcome on `fixed`); "
-                  "(4) a witness for the recorded finding (handles obtained before a rebuilding operation). "
-                  "PARTIAL: C11_full is stated as a Definition; not proved: operands built by parsing or by the builder, texts that parse without error but are not renderings of a wf_rfield, "
-                  "the connection of C10's content with this cone's `structure` on arbitrary layouts, handles obtained earlier; there the property is checked by the rel-edit stream and its list-model oracle on every run.")
+                  "(4) handles obtained at ANY earlier time (the former finding c11-handle-after-rebuild, repaired by C11-10): for every in-scope program of the eighteen register-machine operations "
+                  "through arbitrary registers (model/RelHandles.v: a register holds the root, the i-th entry, the j-th alternative of the i-th entry, an operand, or a node that left the field) "
+                  "no panic, the root holds the list model's content after every step, it reads back through C10, and every Entry / Relation handle denotes the entry / alternative the abstract "
+                  "reading says, positions shifted by inserts and removals in front of it (C11_handles_step, C11_handles_history, C11_handles_history_field, C11_handles_entry, C11_handles_relation); "
+                  "the pre-fix code refutes it (C11_in_place_refuted, C11_in_place_relation_refuted). "
+                  "PARTIAL: C11_full is stated as a Definition; not proved: operands built by the builder, texts that parse without error but are not renderings of a wf_rfield, "
+                  "the connection of C10's content with this cone's `structure` on arbitrary layouts; in (4): operands obtained by parsing, operations through handles into an operand or to a node that has left the field; "
+                  "there the property is checked by the rel-edit stream and its list-model oracle on every run.")
     level_note = ("Model: coq/model/RelEdit.v — the editing API of debian-control/src/lossless/relations.rs over a store of trees and "
                   "re-based handles (rowan 0.16.1 red layer as the code experiences it).")
     rule = ("rel-edit: the repo's own editing tests and one case per known defect; every history of length <= 2 (thorough 3 on fewer seeds) over 62 "
@@ -94,7 +99,7 @@ class C11(Prop):
                "coq/model/RelParse.v, RelLex.v (the reader, proved total and conservative in C09's cone)",
                "debversion::Version Display/FromStr taken as the identity on the version texts the generators use",
                "extraction (ExtrOcamlBasic only), OCaml runner, Rust harness, Python driver and oracle"]
-    assumptions = ["the theorems are about the code with proposed_fixes/C11-*.patch applied (the model's `fixed` variant); on the code without them the check reports the violations",
+    assumptions = ["the theorems are about the code with proposed_fixes/C11-*.patch applied (the model's `fixed` variant, including the pending C11-10-in-place-splice.patch); on the code without them the check reports the violations (without C11-10: the histories through handles never obtained again)",
                    "indices within range where the API unwraps (replace, remove_entry, Entry::replace, remove_relation): out-of-range indices panic, in the model as in the code"]
     case_ms = 20000
 
